@@ -195,10 +195,12 @@ class CFG:
             return n.id
         if k == 'DeclStmt' or cx.is_expr(s):
             n = self._new('stmt', s)
-            for c in cx.calls_in(s):
-                if cx.callee_name(c) in NORETURN:
-                    self._edge(n.id, self.abort.id, None)
-                    return n.id
+            top = cx.strip(s, casts=True) if cx.is_expr(s) else None
+            if top is not None and top.get('kind') == 'CallExpr' and cx.callee_name(top) in NORETURN:
+                # only an unconditional call ends the path (the _cffi_to_c_int macro has
+                # Py_FatalError in one arm of a ternary: that statement does continue)
+                self._edge(n.id, self.abort.id, None)
+                return n.id
             self._edge(n.id, nxt, None)
             return n.id
         if k == 'AttributedStmt':
